@@ -154,9 +154,12 @@ package cache
 //@   ensures implies(delay == time.Second, next == 5*time.Second) && implies(delay == 5*time.Second, next == time.Minute)
 //@   ensures implies(delay == time.Minute, next == 5*time.Minute) && implies(delay == 5*time.Minute, next == time.Hour)
 //@   modifies nothing
+// (every retry task is booked under its own fresh random timer key: SetTimer on a pending key REPLACES the pending task, so
+// a key derived from the cache keys would let a second failed invalidation drop the first one's keys)
 //@ func AddCleanTask
 //@   property C06
-//@   call SetTimer#0: assert arg_delay == time.Second
+//@   ghost at after Randn#0: rk = ret
+//@   call SetTimer#0: assert arg_delay == time.Second && arg_key == boxed(rk)
 //@   ensures twSets == old(twSets) + 1
 //@ func clean closure 0
 //@   property C06
